@@ -10,9 +10,10 @@ fi
 rm -rf $V
 /venv/bin/python -m venv $V
 SP=$($V/bin/python -c "import sysconfig; print(sysconfig.get_paths()['purelib'])")
+REPO_DIR=${VERIF_REPO:-/repo}
 cat > "$SP/verif_overlay.pth" <<PTH
 import site; site.addsitedir('/venv/lib/python3.12/site-packages')
-/repo
+$REPO_DIR
 PTH
 PIP_NO_INDEX=1 $V/bin/pip install -q --no-index --find-links /opt/veriftools/wheels crosshair-tool >/dev/null
 $V/bin/python -c "import crosshair, z3, streamz; print('verif venv ok', z3.get_version_string())"
